@@ -223,6 +223,52 @@ specs["C13"] = {"property": "C13",
     "outside_claim": ["Lepton telemetry word decoding", "handleConn's event reporting / camera restart request (D-Bus I/O)", "shapes above 6x5"],
     "stubs_doc": MP_STUBS + ["lepton3.ParseTelemetry -> returns nil (engine only)"], "jobs": c13}
 
+TR = "github.com/TheCacophonyProject/thermal-recorder"
+CONN_STUBS = {
+    "bufio.NewReader": "zzStubNewReader", TR + "/headers.ReadHeaderInfo": "zzStubReadHeaderInfo",
+    f"(*{TR}/cmd/thermal-recorder.Config).LoadMotionConfig": "zzStubLoadMotionConfig", "gopkg.in/yaml.v2.Marshal": "zzStubMarshal",
+    "os.Mkdir": "zzStubMkdir", "io.ReadFull": "zzStubReadFull", f"(*{TR}/motion.MotionProcessor).Process": "zzStubProcess",
+    f"(*{TR}/motion.MotionProcessor).Reset": "zzStubReset", TR + "/leptondController.RestartCamera": "zzStubRestartCamera",
+    TR + "/leptondController.SetAutoFFC": "zzStubSetAutoFFC"}
+CONN_REWRITE = ["config.go:Config.LoadMotionConfig=zzStubLoadMotionConfig", "/motion/motionprocessor.go:MotionProcessor.Process=@ZZHookProcess",
+                "/motion/motionprocessor.go:MotionProcessor.Reset=@ZZHookReset", "/leptondController/leptondController.go:RestartCamera=@ZZHookRestartCamera"]
+def conn_jobs():
+    jobs = []
+    base = {"minS": [2], "maxS": [7], "prevS": [3], "fps": [5], "T": [1], "bucketS": [10], "refillS": [10]}
+    def J(name, extra, extra_t=None, tier=""):
+        g = dict(base); g.update(extra)
+        j = {"name": name, "pkg": "cmd/thermal-recorder", "harness": "main", "entry": "ZZ_CONN", "grid": g, "stubs": CONN_STUBS,
+             "noops": [TR + "/cmd/thermal-recorder.logConfig", "github.com/TheCacophonyProject/event-reporter/eventclient.AddEvent"],
+             "init_pkgs": ["io"], "fixed_now": 1600000000000000000, "allow_pkgs": [L3], "native_rewrite": CONN_REWRITE, "tier": tier, "timeout": 300}
+        if extra_t:
+            gt = dict(base); gt.update(extra_t); j["grid_thorough"] = gt
+        jobs.append(j)
+    J("conn", {"K": [3], "THR": [1], "CR": [1], "MODEL": [2]}, {"K": [4], "THR": [1], "CR": [1], "MODEL": [2]})
+    J("conn_wiring", {"K": [1], "THR": [0, 1], "CR": [0, 1], "MODEL": [0, 1, 2, 3]})
+    return jobs
+
+HDR_STUBS = {"(*bufio.Reader).ReadString": "zzStubReadString", "(*bytes.Buffer).WriteString": "zzStubWriteString", "(*bytes.Buffer).Bytes": "zzStubBytes",
+             "strings.Trim": "zzStubTrim", "gopkg.in/yaml.v1.Unmarshal": "zzStubUnmarshal"}
+CONN_EXPL = ("handleConn (cmd/thermal-recorder/main.go) is executed symbolically from its real SSA with the socket, the header parser, the config loader, YAML, D-Bus calls and "
+             "MotionProcessor.Process/Reset replaced by contract stubs: io.ReadFull reads from a ghost byte stream made of K items (8-byte frames with arbitrary content, or the 5-byte 'clear' marker, kinds symbolic) followed by a fragment of 0..7 arbitrary bytes (connection cut at any point); "
+             "Process returns nil / BadFrameErr / another error nondeterministically. Asserted: one Process call per complete frame with exactly its bytes, one Reset(headerInfo) per marker, in stream order (alignment kept), an error when the stream ends, a camera restart request exactly for bad frames; "
+             "and, on the objects the real constructors built (throttle.NewThrottledRecorder, ratelimit bucket, motion.NewMotionProcessor, NewCPTVFileRecorder all executed for real at a concrete configuration with distinct values): the wiring of the three sinks, minimum clip = (min+preview)*fps, bucket size, frame limits, ring size and the CPTV header fields. "
+             "Native replay runs the real handleConn over a net.Conn that delivers the same bytes in small segments, with Process/Reset/RestartCamera forwarded through hook variables injected by overlay.")
+specs["C14"] = {"property": "C14",
+    "explanation": "Bounded symbolic verification (SSA->SMT) of the frame-socket protocol, in the parts within reach. (1) headers.ReadHeaderInfo's line loop over a ghost stream of up to L lines (kinds: blank, spaces-only, well-formed field line of the right or the wrong type, malformed YAML; EOF after any line, optionally followed by an unterminated fragment) with bufio.ReadString / bytes.Buffer / strings.Trim / yaml.Unmarshal replaced by contract stubs: reading stops exactly at the first blank line (nothing beyond it is consumed), EOF before it yields (nil, err) and never a partial header, a YAML error yields (nil, err), and each of the eight fields equals the value under its key constant (0/\"\" when absent or of the wrong type). Natively the same stream is real bytes through the real bufio.Reader and yaml.v1. (2) " + CONN_EXPL,
+    "assumptions": COMMON_ASSUME + ["no frame begins with the bytes 'clear' (in-band protocol: neither daemon can tell such a frame from a marker)", "all segmentations of the byte stream into reads are discharged by the documented contracts of io.ReadFull / bufio.Reader.ReadString (trusted stdlib), and exercised natively only for the replayed segmentation", "frame size 8 bytes, K <= 3 (quick) / 4 (thorough) items, L <= 5 / 7 header lines"],
+    "outside_claim": ["the YAML encode (leptond, yaml.v1 Marshal) -> decode round-trip of arbitrary camera descriptions (reflection-driven emitter/parser)", "agreement of cmd/leptond's header keys and marker constant with the recorder's (concrete facts; not encoded)", "thermal-writer's use of the header (C18)"],
+    "stubs_doc": ["bufio/bytes/strings/yaml callees of ReadHeaderInfo -> contract stubs over a ghost line stream (engine only)", "io.ReadFull -> contract stub over a ghost byte stream (engine only)", "MotionProcessor.Process/Reset, leptondController.RestartCamera -> recording stubs (natively via overlay hook variables)", "Config.LoadMotionConfig -> fixed motion config; yaml.v2.Marshal, os.Mkdir, SetAutoFFC, eventclient.AddEvent, logConfig -> inert"],
+    "jobs": [{"name": "header", "pkg": "headers", "harness": "headers", "entry": "ZZ_C14_header", "grid": {"L": [5]}, "grid_thorough": {"L": [7]}, "stubs": HDR_STUBS, "init_pkgs": ["io"]}] + conn_jobs()}
+specs["C11"] = {"property": "C11",
+    "explanation": "Claimed in part (the repository's own share of the path; the codec round-trip is outside, see outside_claim). " + CONN_EXPL,
+    "assumptions": COMMON_ASSUME + ["one concrete configuration with pairwise distinct values per job (it sizes buckets and rings)"],
+    "outside_claim": ["pixel/telemetry round-trip through go-cptv's compressor and reader (math.Log2 bit widths, bit packing, gzip): not decided by this machinery", "config.toml text -> viper/mapstructure (reflection) and YAML text", "the header handed to WriteHeader at StartRecording (MotionConfig + triggeredthresh, BackgroundFrame): go-cptv file writer is I/O"],
+    "stubs_doc": ["see C14"], "jobs": conn_jobs()}
+for pid in ["C05", "C17", "C13"]:
+    specs[pid]["jobs"] = specs[pid]["jobs"] + conn_jobs()[1:]
+    specs[pid]["outside_claim"] = [x for x in specs[pid]["outside_claim"] if "wiring" not in x]
+
 os.makedirs("/verif/checks", exist_ok=True)
 for pid, sp in specs.items():
     json.dump(sp, open(f"/verif/checks/{pid}.json", "w"), indent=1)
